@@ -581,3 +581,29 @@ def subterms(t):
         for x in t:
             if isinstance(x, tuple):
                 yield from subterms(x)
+
+
+def eval_bool(t, atom):
+    """Truth value of a boolean term given `atom(term) -> bool | None` for its leaves (None = not a leaf: descend).
+    Supports and/or/not, phi, comparisons of leaves with the constants True/False/None and `is`/`==`."""
+    v = atom(t)
+    if v is not None:
+        return v
+    k = t[0]
+    if k == "c":
+        return bool(t[1])
+    if k == "un" and t[1] == "not":
+        return not eval_bool(t[2], atom)
+    if k == "op" and t[1] == "and":
+        return eval_bool(t[2], atom) and eval_bool(t[3], atom)
+    if k == "op" and t[1] == "or":
+        return eval_bool(t[2], atom) or eval_bool(t[3], atom)
+    if k == "phi":
+        return eval_bool(t[2], atom) if eval_bool(t[1], atom) else eval_bool(t[3], atom)
+    if k == "cmp" and t[1] in ("is", "is not", "==", "!=") and (t[2][0] == "c" or t[3][0] == "c"):
+        other, const = (t[3], t[2]) if t[2][0] == "c" else (t[2], t[3])
+        same = eval_bool(other, atom) is const[1] if isinstance(const[1], bool) else None
+        if same is None:
+            raise AnalysisError(f"terms: cannot evaluate {show(t)}")
+        return same if t[1] in ("is", "==") else not same
+    raise AnalysisError(f"terms: cannot evaluate boolean term {show(t)[:120]}")
